@@ -44,8 +44,6 @@ theorem exchange_forwarded (env : Env) (h : Header) (st : Nat) (oh : Header)
     rw [hr]
     simp [stackRes_unfold, index_set, canon_kVia]
 
-theorem removeHopByHop_nil : removeHopByHop [] = [] := by rw [removeHopByHop_eq_filter]; rfl
-
 /-- The header the client gets: the hop-by-hop-free part of the origin's header, or of the empty
 header of the synthesised response when the round trip was skipped. -/
 theorem exchange_resHdr (env : Env) (h : Header) (st : Nat) (oh : Header) :
